@@ -164,7 +164,8 @@ def h_equation_and_containers(eng):
         eng.prove("function.is_apply_of_arguments_in_order", z3.And(z3.BoolVal(el.tag == "apply" and children_ok(el, ks) and set(el.attrs) == {"builtin"}),
                                                                     ops.to_z3(el.attrs.get("builtin", "")) == name))
     elif which == "class":
-        ns, ne = eng.choice(4), eng.choice(7)
+        wide = getattr(eng, "tier", "quick") == "thorough"
+        ns, ne = eng.choice(7 if wide else 4), eng.choice(13 if wide else 7)
         syms = [VObj(VClass("Symbol"), {"name": "s%d" % i}) for i in range(ns)]
         eqs = [VObj(VClass("Equation"), {}) for i in range(ne)]
         ks = [kid(s, "sym%d" % i) for i, s in enumerate(syms)]
